@@ -55,7 +55,7 @@ var c08Progs = []string{
 	`1|[] ~ numbers(n).map(x->cnt(x))`,
 	`3|[0,1] ~ numbers(n).map(x->cnt(x))`,
 	`k+2|[k] ~ numbers(n).map(x->cnt(x))`,
-	`1|[] ~ numbers(n).map(x->fail(cnt(x)))`,
+	`1/1|[] ~ numbers(n).map(x->fail(cnt(x)))`,
 	// elements that are lazy pipelines themselves stay lazy on their way through stages and multiUse
 	`2|numbers(n).map(i->numbers(n).map(j->cnt(j))).first().first()`,
 	`3|numbers(n).map(i->numbers(n).map(j->cnt(j))).multiUse({a:l->l.first().first(),b:l->l.top(1).size()}).a`,
@@ -67,7 +67,7 @@ var c08Progs = []string{
 	`k+2|numbers(n).map(x->cnt(x)).cross([1,2],(p,q)->p).present(x->x>=k)`,
 	`0|let l=numbers(n).cross(numbers(n).map(y->cnt(y)),(p,q)->p+q); 7`,
 	`0|[].cross(numbers(n).map(y->cnt(y)),(p,q)->p).size()`,
-	`2|numbers(n).cross(numbers(n).map(y->fail(cnt(y))),(p,q)->p+q).first()`,
+	`2/1|numbers(n).cross(numbers(n).map(y->fail(cnt(y))),(p,q)->p+q).first()`,
 	// in-memory sources
 	`1|[0,1,2,3,4,5,6,7].map(x->cnt(x)).first()`,
 	`k+2|[0,1,2,3,4,5,6,7].map(x->cnt(x)).present(x->x>=k)`,
@@ -81,10 +81,13 @@ var c08Progs = []string{
 	`0|let l=numbers(5).eval().map(x->cnt(x)).combine((p,q)->cnt(p)); [l].size()`,
 	`0|let m={a:[1,2].map(x->cnt(x))}; m.size()`,
 	// failing elements behind the decisive one do not surface
-	`k+2|numbers(n).map(x->fail(cnt(x))).present(x->x>=k)`,
-	`1|numbers(n).map(x->fail(cnt(x))).first()`,
-	`k+1|numbers(n).map(x->fail(cnt(x))).top(k).size()`,
-	`k+2|numbers(n).map(x->fail(cnt(x))).indexWhere(x->x>=k)`,
+	`k+2/k+1|numbers(n).map(x->fail(cnt(x))).present(x->x>=k)`,
+	`1/1|numbers(n).map(x->fail(cnt(x))).first()`,
+	`k+1/k|numbers(n).map(x->fail(cnt(x))).top(k).size()`,
+	`k+1/k|numbers(n).map(x->fail(cnt(x))).top(k).mapReduce(0,(s,x)->s+x)*0+k`,
+	`k+1/k|k+100 ~ numbers(n).map(x->fail(cnt(x))).top(k)`,
+	`k+1/k|numbers(n).map(x->fail(cnt(x))).top(k).indexWhere(x->x<0)`,
+	`k+2/k+1|numbers(n).map(x->fail(cnt(x))).indexWhere(x->x>=k)`,
 	// which error surfaces: the one of the decisive prefix, never the one of a later element
 	`3|try numbers(n).map(x->fail(cnt(x))).single() catch e->e`,
 	`k+3|try numbers(n).map(x->fail(cnt(x))).accept(x->x>=k).single() catch e->e`,
@@ -103,6 +106,8 @@ func c08Jobs(tier string, seed int64) []string {
 
 func c08Run(job string) {
 	bound, prog, _ := strings.Cut(job, "|")
+	// "<limit>/<needed>": closure calls allowed (needed elements + read-ahead) / elements the consumer needs
+	bound, neededSpec, hasNeeded := strings.Cut(bound, "/")
 	fg := value.New()
 	n, k, f := sym.Int64("n"), sym.Int64("k"), sym.Int64("f")
 	sym.Assume(n > 40)
@@ -161,7 +166,23 @@ func c08Run(job string) {
 		}
 	} else if strings.Contains(prog, "fail(") {
 		// the failing element is at position f: behind the demanded prefix it must not surface
-		sym.Assert(sym.Implies(f >= limit, r.ok()), "later-error-does-not-surface")
+		behind := limit
+		if hasNeeded {
+			switch neededSpec {
+			case "0":
+				behind = 0
+			case "1":
+				behind = 1
+			case "k":
+				behind = k
+			case "k+1":
+				behind = k + 1
+			default:
+				panic("c08: needed " + neededSpec)
+			}
+		}
+		// (the read-ahead element is evaluated, but its error is not the consumer's business)
+		sym.Assert(sym.Implies(f >= behind, r.ok()), "later-error-does-not-surface")
 		// inside the decisive prefix it does (the consumer evaluates it)
 		if strings.Contains(prog, "present") || strings.Contains(prog, "indexWhere") {
 			sym.Assert(sym.Implies(f < k, !r.ok()), "earlier-error-surfaces")
